@@ -51,6 +51,10 @@ pub struct K16 {
     pub f3_period_us: u64,
     /// fault provenance for the evidence counters
     pub faults: Vec<String>,
+    /// quiet-feed variant: radar runs with `--filter-time=<this>` seconds and the (single, healthy)
+    /// connection carries nothing for longer than that between two groups of lines
+    #[serde(default)]
+    pub quiet_filter_s: Option<u64>,
 }
 
 fn stream_of(s: &S16) -> Vec<u8> {
@@ -134,6 +138,23 @@ impl LineGen {
         let df18 = rng.chance(0.15);
         let mk = |me: [u8; 7], rng: &mut Rng| if df18 { wire::df18(rng.below(7) as u8, a, me) } else { wire::df17(5, a, me) };
         let _ = for_1090;
+        if rng.chance(0.07) {
+            // replies that are nearly the all-zero heartbeat without being it: DF0 from an aircraft
+            // without ACAS (first bytes 00 00, only the address/parity bytes differ from zero), a
+            // DF0 with one field set, an extended squitter with an all-zero message
+            return match rng.below(5) {
+                0 => wire::short_ap(0, 0, a),
+                1 => wire::short_ap(0, rng.below(0x800) as u32, a),
+                2 => wire::short_ap(0, 1 << rng.below(27), a),
+                3 => mk([0; 7], rng),
+                _ => {
+                    let mut v = vec![0u8; if rng.coin() { 7 } else { 14 }];
+                    let n = v.len();
+                    v[n - 1 - rng.usize_below(3)] = 1 << rng.below(8);
+                    v
+                }
+            };
+        }
         match rng.below(6) {
             0 => mk(wire::me_identification(4, 0, &format!("T{:05}", self.ctr)), rng),
             1 | 2 => {
@@ -291,6 +312,36 @@ pub fn generate(rng: &mut Rng, fault_free: bool) -> K16 {
         }
     };
 
+    if !fault_free && !for_1090 && rng.chance(0.05) {
+        // quiet feed: a healthy connection that carries nothing for longer than the expiry time
+        // (night, a receiver out of range of everything), then traffic again. Nobody disconnected:
+        // every later line still has to be processed, over this connection.
+        let f = *rng.pick(&[6u64, 8]);
+        let gap = f * 1_000_000 + 1_500_000 + rng.below(f * 1_500_000);
+        let small = [0u64, 1_000, 20_000, 49_000, 51_000, 60_000];
+        let mut lines: Vec<Vec<u8>> = vec![];
+        let mut splits: Vec<(usize, u64)> = vec![(0, 20_000)];
+        let npre = 1 + rng.usize_below(7);
+        let npost = 1 + rng.usize_below(7);
+        let mut off = 0usize;
+        for i in 0..npre + npost {
+            if i > 0 {
+                splits.push((off, if i == npre { gap } else { *rng.pick(&small) }));
+            }
+            let l = if malformed_rate > 0.0 && rng.chance(malformed_rate) {
+                let class = *rng.pick(&MALFORMED[..15]);
+                malformed_line(rng, class, &mut lg)
+            } else {
+                lg.good_line(rng, false)
+            };
+            off += l.len();
+            lines.push(l);
+        }
+        faults.push("quiet_longer_than_expiry_time".into());
+        let eintr_reads = if rng.chance(0.3) { (0..1 + rng.below(4)).map(|_| rng.below(40)).collect() } else { vec![] };
+        let sessions = vec![S16 { outcome: KOutcome::Accept, lines: lines.iter().map(|l| wire::hex(l)).collect(), splits, close: None, eintr_reads }];
+        return K16 { app: app.into(), retry, limit_parsing, sessions, proc_delay_us: vec![], coalesce: (0..16).map(|_| rng.chance(0.7)).collect(), f3_period_us: 250_000, faults, quiet_filter_s: Some(f) };
+    }
     let nsess_accept = if retry { 1 + rng.usize_below(3) } else { 1 };
     let mut sessions = vec![];
     let deep = simcore::deep() && rng.chance(0.33);
@@ -432,7 +483,7 @@ pub fn generate(rng: &mut Rng, fault_free: bool) -> K16 {
         vec![]
     };
     let coalesce = if fault_free { vec![] } else { (0..16).map(|_| rng.chance(0.7)).collect() };
-    K16 { app: app.into(), retry, limit_parsing, sessions, proc_delay_us, coalesce, f3_period_us: *rng.pick(&[250_000u64, 400_000, 1_000_000]), faults }
+    K16 { app: app.into(), retry, limit_parsing, sessions, proc_delay_us, coalesce, f3_period_us: *rng.pick(&[250_000u64, 400_000, 1_000_000]), faults, quiet_filter_s: None }
 }
 
 // ---------------------------------------------------------------------------- reference
@@ -686,7 +737,8 @@ pub fn run_k16(sc: &K16) -> (KChild, Parsed) {
     let radar = sc.app == "radar";
     let mut args: Vec<String> = vec![];
     if radar {
-        args.extend(["--lat=35.0", "--long=-80.0", "--log-folder=logs", "--filter-time=1000000"].iter().map(|s| s.to_string()));
+        args.extend(["--lat=35.0", "--long=-80.0", "--log-folder=logs"].iter().map(|s| s.to_string()));
+        args.push(format!("--filter-time={}", sc.quiet_filter_s.unwrap_or(1_000_000)));
         if sc.retry {
             args.push("--retry-tcp".into());
         }
@@ -746,7 +798,9 @@ pub fn execute(sc: &K16) -> Outcome {
     if out.violation.is_some() {
         return out;
     }
-    if radar {
+    if radar && sc.quiet_filter_s.is_some() {
+        check_radar_quiet(sc, &child, &p, &reference, &mut out);
+    } else if radar {
         check_radar(sc, &p, &reference, disconnect_exit, &mut out);
     } else {
         check_1090(&p, &reference, &mut out);
@@ -756,7 +810,8 @@ pub fn execute(sc: &K16) -> Outcome {
 
 fn leak_fault_name(f: &str) -> &'static str {
     // fault names are a closed set; map to 'static for the counters
-    const NAMES: [&str; 29] = [
+    const NAMES: [&str; 30] = [
+        "quiet_longer_than_expiry_time",
         "malformed_line:at_prefixed_short",
         "malformed_line:random_printable",
         "backlog_burst",
@@ -907,6 +962,134 @@ fn check_radar(sc: &K16, p: &Parsed, reference: &[RefLine], disconnect_exit: boo
     }
     if disconnect_exit {
         out.probe("clean_exit_on_disconnect");
+    }
+}
+
+/// Quiet-feed variant (`--filter-time=F`, one healthy connection, nothing for longer than F between
+/// two groups of lines). Nobody disconnected, so radar has to keep the connection and process the
+/// second group as well. The history is judged in two phases split by the bytes delivered: until
+/// the first byte of the second group the table is a prefix state of the first group (or, once F
+/// has passed since the first line, those rows on their way out); afterwards it is a prefix state
+/// of the second group alone, and at the end all of it.
+fn check_radar_quiet(sc: &K16, child: &KChild, p: &Parsed, reference: &[RefLine], out: &mut Outcome) {
+    let f_us = sc.quiet_filter_s.unwrap_or(0) * 1_000_000;
+    // phase boundary: the largest gap between two segments of the only accepted connection
+    let Some(conn) = child.connects.iter().find(|c| c.outcome == KOutcome::Accept) else { return };
+    let mut pre_bytes = 0usize;
+    let mut best: Option<(u64, usize, u64, u64)> = None; // (gap, bytes before, t before, t after)
+    let mut acc = 0usize;
+    for w in conn.segments.windows(2) {
+        acc += w[0].hex.len() / 2;
+        let gap = w[1].at_us - w[0].at_us;
+        if best.map(|b| gap > b.0).unwrap_or(true) {
+            best = Some((gap, acc, w[0].at_us, w[1].at_us));
+        }
+    }
+    let first_at = conn.segments.first().map(|s| s.at_us).unwrap_or(0);
+    let last_at = conn.segments.last().map(|s| s.at_us).unwrap_or(0);
+    let structure_ok = match best {
+        Some((gap, b, t0, t1)) => {
+            pre_bytes = b;
+            gap >= f_us + 1_000_000 && t0 - first_at < 1_500_000 && last_at - t1 < 1_500_000 && child.connects.iter().filter(|c| c.outcome == KOutcome::Accept).count() == 1 && conn.close_at_us.is_none()
+        }
+        None => false,
+    };
+    if !structure_ok {
+        // a shrinking candidate that lost the two-group structure: nothing to judge
+        out.probe("quiet_structure_lost");
+        return;
+    }
+    let eff: Vec<&RefLine> = reference.iter().filter(|l| if sc.limit_parsing { l.bytes[0] >> 3 == 17 } else { is_es(&l.bytes) }).collect();
+    let build = |ls: &[&RefLine]| -> Vec<Vec<Row>> {
+        let mut tr = Airplanes::new();
+        let mut t = vec![table_of(&tr)];
+        for l in ls {
+            if let Ok(f) = Frame::from_bytes(&l.bytes) {
+                let _ = tr.action(f, RX, 500.0);
+            }
+            t.push(table_of(&tr));
+        }
+        t
+    };
+    let pre: Vec<&RefLine> = eff.iter().copied().filter(|l| l.end <= pre_bytes).collect();
+    let post: Vec<&RefLine> = eff.iter().copied().filter(|l| l.end > pre_bytes).collect();
+    let (tp, tq) = (build(&pre), build(&post));
+    let mut totals: std::collections::BTreeMap<u64, usize> = std::collections::BTreeMap::new();
+    for l in &p.log {
+        if let LogEv::Frame { k, total, .. } = l {
+            totals.insert(*k, *total);
+        }
+    }
+    let first_data_us = p.log.iter().find_map(|l| match l {
+        LogEv::Rd { kind, t, .. } if kind == "data" => Some(*t),
+        _ => None,
+    });
+    let accepts = p.log.iter().filter(|l| matches!(l, LogEv::Connect { what, .. } if what.starts_with("accept"))).count();
+    let connects = p.log.iter().filter(|l| matches!(l, LogEv::Connect { .. })).count();
+    if accepts == 1 && connects > sc.sessions.len() {
+        out.violate("C16:healthy-connection-abandoned", format!("radar opened a new connection although the server never closed the one it had (quiet for {} s with --filter-time={}); what the server sends on the old connection is lost", best.map(|b| b.0).unwrap_or(0) / 1_000_000, sc.quiet_filter_s.unwrap_or(0)));
+        return;
+    }
+    let (mut jp_prev, mut jq_prev) = (0usize, 0usize);
+    let mut last: Option<(bool, usize)> = None;
+    let mut silent_frames = 0;
+    for s in &p.vt.frames {
+        if tab_bar_count(s).is_none() {
+            continue;
+        }
+        let Some((rows, _, _)) = parse_airplanes_tab(s) else { continue };
+        let total = totals.get(&s.k).copied().unwrap_or(usize::MAX);
+        let j: usize = rows.iter().map(|r| r.msgs.parse::<usize>().unwrap_or(0)).sum();
+        if total <= pre_bytes {
+            let c_k = pre.iter().filter(|l| l.end <= total).count();
+            let expiring = first_data_us.map(|t0| s.vt_us >= t0 + f_us).unwrap_or(false);
+            if expiring {
+                silent_frames += 1;
+                // rows on their way out: each still exactly a row of the first group's final table
+                let fin = tp.last().unwrap();
+                if !rows.iter().all(|r| fin.iter().any(|x| row_matches(r, x))) {
+                    out.violate("C16:table-is-not-a-prefix-of-the-feed", format!("frame {} (t={}us, quiet period): a row is shown that the first group of lines never produced
+shown:
+{}
+first group's final table:
+{}", s.k, s.vt_us, dump_rows(&rows), dump_rows(fin)));
+                    return;
+                }
+            } else {
+                if j < jp_prev || j > c_k || j >= tp.len() || !tables_match(&rows, &tp[j]) {
+                    out.violate("C16:table-is-not-a-prefix-of-the-feed", format!("frame {} (t={}us, first group): the table shows {j} processed frames (earlier {jp_prev}, delivered {c_k}) and is not the state after the first {j} well-formed lines
+shown:
+{}
+expected:
+{}", s.k, s.vt_us, dump_rows(&rows), dump_rows(tp.get(j).map(Vec::as_slice).unwrap_or(&[]))));
+                    return;
+                }
+                jp_prev = j;
+            }
+            last = Some((false, j));
+        } else {
+            let c_k = post.iter().filter(|l| l.end <= total).count();
+            if j < jq_prev || j > c_k || j >= tq.len() || !tables_match(&rows, &tq[j]) {
+                out.violate("C16:table-is-not-a-prefix-of-the-feed", format!("frame {} (t={}us, after the quiet period): the table shows {j} processed frames (earlier {jq_prev}, delivered {c_k}) and is not the state after the first {j} well-formed lines sent after the quiet period
+shown:
+{}
+expected:
+{}", s.k, s.vt_us, dump_rows(&rows), dump_rows(tq.get(j).map(Vec::as_slice).unwrap_or(&[]))));
+                return;
+            }
+            jq_prev = j;
+            last = Some((true, j));
+        }
+    }
+    if silent_frames > 0 {
+        out.probe("quiet_period_longer_than_expiry_time_drawn");
+    }
+    match last {
+        Some((true, j)) if j == post.len() => out.probe("whole_feed_processed_at_end"),
+        Some((ph, j)) => out.violate("C16:lines-lost-at-end-of-run", format!("at the last drawn frame {} of the {} well-formed lines sent after the quiet period had been processed (the connection was never closed by the server)
+expected final table:
+{}", if ph { j } else { 0 }, post.len(), dump_rows(tq.last().unwrap()))),
+        None => out.probe("run_ended_before_table_visible"),
     }
 }
 
